@@ -390,6 +390,60 @@ func c28UpDown(up bool) string {
 	return "down"
 }
 
+// ---------------------------------------------------------------------------------------
+// real-pool scenario: the bookkeeping of "last passed probe" of a pool that has never passed
+// one comes from the REAL constructor (Slice.ParseSlave -> NewConnectionPool + Open, never
+// dialled). The real pool stamps the wall clock, so here - and only here - the virtual clock
+// is set once to the wall clock at creation; the verdict is only "down at once or not".
+
+type c28RealLC struct {
+	ConnectionPool // the real connectionPoolImpl: SetLastChecked / GetLastChecked are its own
+}
+
+func (p *c28RealLC) GetCheck(ctx context.Context) (PooledConnect, error) {
+	return nil, errors.New("dial tcp: connect: connection refused")
+}
+
+func c28RunRealPool(policy string, downAfter int) []*c28Fail {
+	clock := c28MainClock
+	clock.Set(time.Now().Unix()) // creation time T of the pool, see above
+	s := &Slice{Namespace: "c28r", FuseEnabled: "on", FuseWindowSize: 4, FuseMinErrorCount: 2}
+	switch policy {
+	case "none":
+		s.FuseEnabled = "off"
+	case "hard":
+		s.FuseCooldownPeriod = 5
+	}
+	if err := s.ParseSlave([]string{"127.0.0.1:1@1#dc"}); err != nil {
+		return []*c28Fail{{Clause: "setup", Detail: err.Error()}}
+	}
+	mnode, _ := hcNode(0, 1, "dc", true, clock)
+	s.Master = &DBInfo{Nodes: []*NodeInfo{mnode}}
+	if err := hcEnableFuse(s, s.Slave); err != nil || len(s.Slave.Nodes) != 1 {
+		return []*c28Fail{{Clause: "setup", Detail: fmt.Sprint(err)}}
+	}
+	node := s.Slave.Nodes[0]
+	realPool := node.ConnPool
+	defer realPool.Close()
+	node.ConnPool = &c28RealLC{ConnectionPool: realPool}
+	var fails []*c28Fail
+	// round 1: the first probe after creation fails; T + 0 < T + downAfter: must stay up
+	s.TryRecover(node, downAfter, 0)
+	if !node.IsStatusUp() {
+		fails = append(fails, &c28Fail{Clause: "down-at-first-failed-probe-after-pool-creation/" + policy,
+			Detail: fmt.Sprintf("pool created at T, first probe round at T fails: node marked down although down-after is %ds (pool reports last check %d, T=%d)", downAfter, realPool.GetLastChecked(), clock.Sec())})
+		node.SetStatusUp()
+	}
+	// round 2: still failing at T + downAfter + 1: now it must go down
+	clock.Advance(int64(downAfter) + 1)
+	s.TryRecover(node, downAfter, 0)
+	if node.IsStatusUp() {
+		fails = append(fails, &c28Fail{Clause: "not-down-after-no-alive-since-pool-creation/" + policy,
+			Detail: fmt.Sprintf("no probe passed for %ds since the pool was created, down-after %d, node still up", downAfter+1, downAfter)})
+	}
+	return fails
+}
+
 // c28Classify names the oracle clause from structured features of the failing round.
 func c28Classify(c c28Case, rd c28Round, before, after, pass bool, t, lastPass, takenDown int64) string {
 	m := "master-up"
@@ -616,6 +670,7 @@ func TestVerif_C28(t *testing.T) {
 	rec.Assume("a probe in which the configured health SQL keeps failing with an ordinary SQL error while ping and `select 1` succeed is counted by Gaea as passed; the reference follows that reading")
 	rec.Assume("with the master down the replication check is not demanded and an up-mark is permitted (after a passed probe) but not demanded")
 	rec.Assume("an error of `show slave status` other than the privilege error is not generated (the statement does not say what it means)")
+	rec.Assume("real-pool scenario only: the real connectionPoolImpl stamps its creation / last check with the wall clock, so the virtual clock is set once to the wall clock at pool creation; the verdict is only whether the first failed probe marks the node down at once")
 	rec.Assume("master rounds are paced by the real 4 s ticker of checkBackendMasterStatus; all time the code under test reads comes from per-goroutine virtual clocks")
 
 	c28MainClock = &hcClock{sec: 1700000000}
@@ -703,6 +758,18 @@ func TestVerif_C28(t *testing.T) {
 	}
 	rec.Count("replica.rounds", rounds)
 	rec.Count("replica.status_changes", statusChanges)
+
+	// ---- real-pool scenario (creation-time bookkeeping of the real constructor)
+	for _, pol := range []string{"none", "hard", "gradual"} {
+		for _, da := range []int{8, 32, 3600} {
+			rec.Eval(1)
+			rec.Count("realpool.scenarios", 1)
+			for _, f := range c28RunRealPool(pol, da) {
+				rec.Violation("realpool/"+f.Clause, fmt.Sprintf("real connection pool (Slice.ParseSlave), policy=%s down-after=%d: %s", pol, da, f.Detail), map[string]interface{}{"part": "realpool", "policy": pol, "down_after": da})
+			}
+		}
+	}
+	c28MainClock.Set(1700000000)
 
 	// ---- collect the master lane
 	deadline := time.After(time.Duration(lenMaster+2)*4*time.Second + 5*time.Minute) // watchdog only
